@@ -500,6 +500,9 @@ func (s *Store[H]) flushLoop(ctx context.Context) {
 				default:
 				}
 
+				// force the pending batch on disk, so that Sync's callers
+				// (e.g. DeleteRange) find every synced header in the datastore
+				flush(nil)
 				close(dn)
 				break
 			}
